@@ -9,22 +9,28 @@ from . import core
 
 
 def do_setup():
-    bad = core.forbidden_scan()
+    """Build the Coq development of every claimed property (full .vo build) and one-time artefacts."""
+    man = json.load(open(os.path.join(core.VERIF, 'MANIFEST.json')))
+    ids = [c['property_id'] for c in man['checks']]
+    roots = []
+    for pid in ids:
+        roots.append(f'Props/{pid}.v')
+        roots += [f for f in core.coq_sources() if f.startswith(f'Corr/{pid}')]
+    closure = core.coq_closure(roots)
+    bad = core.forbidden_scan(closure)
     if bad:
         print('forbidden constructs in coq/:', bad)
         return 1
-    rc, out = core.coq_make()
+    rc, out = core.coq_make([r + 'o' for r in roots])
     print(out[-3000:])
     if rc != 0:
         print('coq build failed')
         return rc
     core.setup_paths()
-    # one-time artefacts (key pools etc.) built by property modules that define setup()
-    for f in sorted(os.listdir(os.path.join(core.VERIF, 'harness', 'props'))):
-        if f.startswith('c') and f.endswith('.py'):
-            mod = importlib.import_module(f'harness.props.{f[:-3]}')
-            if hasattr(mod, 'setup'):
-                mod.setup()
+    for pid in ids:
+        mod = importlib.import_module(f'harness.props.{pid.lower()}')
+        if hasattr(mod, 'setup'):
+            mod.setup()
     print('setup ok')
     return 0
 
